@@ -252,3 +252,82 @@ void h_df(void)
   if (iora_exc == EXC_NONE && f.mode == BodyMode_Chunked) { IORA_CANARY("h_df: chunked"); }
   if (iora_exc != EXC_NONE) { IORA_CANARY("h_df: rejected"); }
 }
+
+/* ================= HttpClient::frameResponse (RFC 9112 6.3 message body length; 15.2 interim responses; segmentation independence of the header scan) ================= */
+/* environment contracts of the two callees for this proof = clauses PROVED above (phb_safety B0/B1, determine_framing D5 + result domain) */
+void phb_env(iora_sv hs, Response *resp)
+__CPROVER_requires(IORA_TRUE && iora_exc == EXC_NONE)
+/* the call-site precondition of parseHeaderBlock's own contract, checked here: the field map is empty (`resp = Response{}` just before) */
+__CPROVER_requires(resp->headers.has_cl == 0 && resp->headers.has_te == 0)
+__CPROVER_assigns(iora_exc, *resp)
+__CPROVER_ensures(iora_exc == EXC_NONE || iora_exc == EXC_HttpFramingError)
+__CPROVER_ensures(iora_exc == EXC_NONE ==> (resp->statusCode >= 0 && resp->statusCode <= 999))
+;
+Framing df_env(iora_sv method, const Response *resp, size_t effectiveCap)
+__CPROVER_requires(IORA_TRUE && iora_exc == EXC_NONE)
+__CPROVER_assigns(iora_exc)
+__CPROVER_ensures(iora_exc == EXC_NONE || iora_exc == EXC_HttpFramingError)
+__CPROVER_ensures(iora_exc == EXC_NONE ==> (R.mode == BodyMode_NoBody || R.mode == BodyMode_ContentLength || R.mode == BodyMode_Chunked || R.mode == BodyMode_CloseDelimited))
+__CPROVER_ensures((iora_exc == EXC_NONE && R.mode == BodyMode_ContentLength) ==> R.contentLength <= effectiveCap)
+;
+#define FR_PRE \
+__CPROVER_requires(IORA_TRUE && iora_exc == EXC_NONE && method.n <= 64) \
+__CPROVER_requires(__CPROVER_is_fresh(data, sizeof(*data))) \
+__CPROVER_requires(data->off == 0 && data->n <= FR_MAXLEN && __CPROVER_is_fresh(data->p, data->n + 1)) \
+__CPROVER_requires(__CPROVER_is_fresh(headersDone, sizeof(bool))) \
+__CPROVER_requires(__CPROVER_is_fresh(headerScanPos, sizeof(size_t))) \
+__CPROVER_requires(__CPROVER_is_fresh(bodyStart, sizeof(size_t))) \
+__CPROVER_requires(__CPROVER_is_fresh(resp, sizeof(Response))) \
+__CPROVER_requires(__CPROVER_is_fresh(framing, sizeof(Framing))) \
+__CPROVER_requires(__CPROVER_is_fresh(chunkState, sizeof(ChunkState))) \
+__CPROVER_requires(__CPROVER_is_fresh(forceEvict, sizeof(bool))) \
+/* state carried between calls (executeRequest only appends to data between calls): the scan state is sound for the current buffer; once the header \
+ * block is complete, bodyStart and the chunk parser position lie inside the buffer and the mode is one of the four */ \
+__CPROVER_requires(!*headersDone ==> FR_SCAN_RANGE(*data, *headerScanPos)) \
+__CPROVER_requires(HM_CONTENT(!*headersDone ==> FR_SCAN_NONE_BELOW(*data, *headerScanPos))) \
+__CPROVER_requires(*headersDone ==> (*bodyStart <= data->n && chunkState->pos <= data->n && framing->mode >= BodyMode_NoBody && framing->mode <= BodyMode_CloseDelimited && !(resp->statusCode >= 100 && resp->statusCode < 200))) \
+__CPROVER_requires(FR.found == 0) \
+__CPROVER_assigns(data->off, data->n, *headersDone, *headerScanPos, *bodyStart, *resp, *framing, *chunkState, *forceEvict, iora_exc, FR)
+#define OLD_HD __CPROVER_old(*headersDone)
+#define OLD_FE __CPROVER_old(*forceEvict)
+/* proof fr_safety: built-in checks + unsigned overflow (Content-Length branch by SUBTRACTION: `size - bodyStart`, `bodyStart + contentLength` cannot wrap),
+ * substr / advanceChunked / parseHeaderBlock call-site preconditions, frame, scan-range invariant, VARIANT (each discarded interim response shrinks the buffer) */
+bool fr_safety(iora_sv method, fr_str *data, bool *headersDone, size_t *headerScanPos, size_t *bodyStart, Response *resp, Framing *framing, ChunkState *chunkState, bool *forceEvict, size_t effectiveCap)
+FR_PRE
+/* R0 only HttpFramingError; an exception or `false` never hands a body to the caller as complete */
+__CPROVER_ensures(iora_exc == EXC_NONE || (iora_exc == EXC_HttpFramingError && !R))
+/* R1 the buffer only ever loses a PREFIX (discarded interim responses); the state carried to the next call satisfies this contract's precondition again */
+__CPROVER_ensures(data->n <= __CPROVER_old(data->n) && data->off + data->n == __CPROVER_old(data->n))
+__CPROVER_ensures((NOEXC && !*headersDone) ==> (!R && FR_SCAN_RANGE(*data, *headerScanPos)))
+__CPROVER_ensures((NOEXC && *headersDone) ==> (*bodyStart <= data->n && (framing->mode != BodyMode_Chunked || chunkState->pos <= data->n)))
+/* R2 Content-Length: complete exactly when bodyStart + N octets are buffered (mathematical sum); the body is EXACTLY [bodyStart, bodyStart + N); surplus => forceEvict */
+__CPROVER_ensures((NOEXC && *headersDone && framing->mode == BodyMode_ContentLength) ==> (R == (framing->contentLength <= data->n - *bodyStart)))
+__CPROVER_ensures((R && framing->mode == BodyMode_ContentLength) ==> (resp->body.p == data->p + data->off + *bodyStart && resp->body.n == framing->contentLength))
+__CPROVER_ensures((R && framing->mode == BodyMode_ContentLength) ==> ((*forceEvict != 0) == ((OLD_FE != 0) || data->n - *bodyStart > framing->contentLength)))
+/* R3 no body: complete at once, empty body, any byte after the header block => forceEvict */
+__CPROVER_ensures((NOEXC && *headersDone && framing->mode == BodyMode_NoBody) ==> (R && resp->body.n == 0 && (*forceEvict != 0) == ((OLD_FE != 0) || data->n > *bodyStart)))
+/* R4 chunked: complete only when the chunk decoder says so; surplus after messageEnd => forceEvict; close-delimited never completes here */
+__CPROVER_ensures((R && framing->mode == BodyMode_Chunked) ==> (chunkState->messageEnd <= data->n && (*forceEvict != 0) == ((OLD_FE != 0) || data->n > chunkState->messageEnd)))
+__CPROVER_ensures((NOEXC && *headersDone && framing->mode == BodyMode_CloseDelimited) ==> !R)
+/* R8 (RFC 9112 15.2) an interim 1xx response is never handed out as the final response; the header block that is kept is not an interim one */
+__CPROVER_ensures((NOEXC && *headersDone) ==> !(resp->statusCode >= 100 && resp->statusCode < 200))
+/* R5 forceEvict is never cleared; once the header block is complete it stays complete and bodyStart / framing are not re-derived */
+__CPROVER_ensures(((OLD_FE != 0) ==> (*forceEvict != 0)) && (OLD_HD ==> (*headersDone && *bodyStart == __CPROVER_old(*bodyStart) && framing->mode == __CPROVER_old(framing->mode) && framing->contentLength == __CPROVER_old(framing->contentLength) && data->n == __CPROVER_old(data->n))))
+;
+/* proof fr_scan: the header-terminator scan is segmentation independent */
+bool fr_scan(iora_sv method, fr_str *data, bool *headersDone, size_t *headerScanPos, size_t *bodyStart, Response *resp, Framing *framing, ChunkState *chunkState, bool *forceEvict, size_t effectiveCap)
+FR_PRE
+/* R6 need-more: NO header terminator starts below the saved cursor of the CURRENT buffer (arbitrary GQ) - also right after interim responses were discarded */
+__CPROVER_ensures((NOEXC && !*headersDone) ==> FR_SCAN_NONE_BELOW(*data, *headerScanPos))
+/* R7 header block completed by this call: bodyStart is just past the FIRST CRLF CRLF of the (remaining) buffer - none starts before it (arbitrary GQ) */
+__CPROVER_ensures((NOEXC && !OLD_HD && *headersDone) ==> ((FR.found != 0) && *bodyStart == FR.he + 4 && *bodyStart <= data->n && FR_CRLF2_AT(*data, FR.he)))
+__CPROVER_ensures((NOEXC && !OLD_HD && *headersDone) ==> (!((GQ < FR.he) && (GQ <= data->n) && (data->n - GQ >= 4)) || !FR_CRLF2_AT(*data, GQ)))
+;
+void h_fr(void)
+{
+  iora_sv m; fr_str *d; bool *hd; size_t *hsp; size_t *bs; Response *r; Framing *f; ChunkState *cs; bool *fe; size_t cap;
+  bool done = frameResponse(m, d, hd, hsp, bs, r, f, cs, fe, cap);
+  IORA_CANARY("h_fr: returns");
+  if (done) { IORA_CANARY("h_fr: complete"); }
+  if (iora_exc != EXC_NONE) { IORA_CANARY("h_fr: rejected"); }
+}
